@@ -34,8 +34,17 @@ def s_case(draw, tier):
         o = [draw(gens.grid(-2, 2, 8)) for _ in range(d)]
     else:
         o = [draw(st.sampled_from([0.0, 1.0, -0.5]))] * d
+    # nearly degenerate spectra: eigenvalues that differ by 1e-3 ... 1e-13 (the library treats differences below 1e-12
+    # as equal; anything above must be kept apart)
+    near = draw(st.sampled_from([None, None, 2e-3, 1e-3, 1e-6, 1e-9, 1e-13]))
+    if near is not None and kind != "total":
+        o = list(o)
+        i = draw(st.integers(0, d - 1))
+        o[i] = o[i] + near
+        if d >= 3 and draw(st.booleans()):
+            o[(i + 1) % d] = o[(i + 1) % d] - 2 * near
     b = draw(tempogen.bath_spec(d, custom_weight=0.0, distinct_if_rotated=False))
-    b = dict(b, o=o)
+    b = dict(b, o=o, near=near)
     p = draw(tempogen.params_spec(d, tier, n_min=2, eps=[1e-7, 1e-8, 1e-9]))
     return {"d": d, "bath": b, "total": kind == "total", "sys": draw(sysgen.sys_spec(d)),
             "rho0": draw(gens.dm_spec(d)), "par": p, "t0": draw(st.sampled_from([0.0, 0.4])),
@@ -50,6 +59,8 @@ def run_case(case):
     out = Outcome()
     d, b, p, t0 = case["d"], case["bath"], case["par"], case["t0"]
     o = np.array(b["o"], dtype=float)
+    if b.get("near"):
+        out.label("nearly-degenerate:%g" % b["near"])
     total = (o.max() - o.min()) == 0
     if total:
         # O proportional to the identity (or zero): no conditioning needed, D = 0
